@@ -133,6 +133,14 @@ func strOp(p []byte) (out []byte) {
 	case sFromInt64:
 		v := int64(rd(p, 1))
 		out = putStr(out, string(rune(v)))
+		// integer-to-string conversions of wider types: values outside the valid code points give "\uFFFD"
+		out = putStr(out, string(v))
+		out = putStr(out, string(int(v)))
+		out = putStr(out, string(uint64(v)))
+		out = putStr(out, string(int32(v)))
+		out = putStr(out, string(uint16(v)))
+		type myInt int64
+		out = putStr(out, string(myInt(v)))
 	case sPlusEq:
 		n := int(rd(p, 1))
 		i := 9
